@@ -19,176 +19,16 @@ package main
 import (
 	"errors"
 	"fmt"
-	"io"
-	"net"
-	"net/http"
 	"os"
-	"sort"
 	"strconv"
 	"strings"
 	"time"
 
+	"harness/internal/hx"
 	"harness/internal/lp"
 
 	"github.com/lesismal/nbio/logging"
-	"github.com/lesismal/nbio/nbhttp"
 )
-
-type fakeConn struct{ closed bool }
-
-func (c *fakeConn) Read(b []byte) (int, error)         { return 0, nil }
-func (c *fakeConn) Write(b []byte) (int, error)        { return len(b), nil }
-func (c *fakeConn) Close() error                       { c.closed = true; return nil }
-func (c *fakeConn) LocalAddr() net.Addr                { return &net.TCPAddr{} }
-func (c *fakeConn) RemoteAddr() net.Addr               { return &net.TCPAddr{} }
-func (c *fakeConn) SetDeadline(t time.Time) error      { return nil }
-func (c *fakeConn) SetReadDeadline(t time.Time) error  { return nil }
-func (c *fakeConn) SetWriteDeadline(t time.Time) error { return nil }
-
-type capLogger struct{ panics int }
-
-func (l *capLogger) Debug(f string, v ...interface{}) {}
-func (l *capLogger) Info(f string, v ...interface{})  {}
-func (l *capLogger) Warn(f string, v ...interface{})  {}
-func (l *capLogger) Error(f string, v ...interface{}) {
-	if strings.Contains(f, "Parse failed") || strings.Contains(f, "failed") {
-		l.panics++
-	}
-}
-
-// rec wraps the real processor, recording every callback.
-type rec struct {
-	inner    nbhttp.Processor
-	evs      []string
-	msgs     []string
-	badURL   []string
-	badProto []string
-	okProto  []string
-	held     int
-	maxHeld  int
-}
-
-func hx(s string) string { return lp.Hex([]byte(s)) }
-
-func (r *rec) OnMethod(p *nbhttp.Parser, m string) {
-	r.evs = append(r.evs, "method "+hx(m))
-	r.inner.OnMethod(p, m)
-}
-func (r *rec) OnURL(p *nbhttp.Parser, u string) error {
-	err := r.inner.OnURL(p, u)
-	if err != nil {
-		r.badURL = append(r.badURL, hx(u))
-	} else {
-		r.evs = append(r.evs, "url "+hx(u))
-	}
-	return err
-}
-func (r *rec) OnProto(p *nbhttp.Parser, s string) error {
-	err := r.inner.OnProto(p, s)
-	if err != nil {
-		r.badProto = append(r.badProto, hx(s))
-	} else {
-		r.okProto = append(r.okProto, hx(s))
-		r.evs = append(r.evs, "proto "+hx(s))
-	}
-	return err
-}
-func (r *rec) OnStatus(p *nbhttp.Parser, code int, s string) {
-	r.evs = append(r.evs, fmt.Sprintf("status %d %s", code, hx(s)))
-	r.inner.OnStatus(p, code, s)
-}
-func (r *rec) OnHeader(p *nbhttp.Parser, k, v string) {
-	r.evs = append(r.evs, "header "+hx(k)+" "+hx(v))
-	r.inner.OnHeader(p, k, v)
-}
-func (r *rec) OnContentLength(p *nbhttp.Parser, n int) {
-	r.evs = append(r.evs, "cl "+strconv.Itoa(n))
-	r.inner.OnContentLength(p, n)
-}
-func (r *rec) OnBody(p *nbhttp.Parser, d []byte) error {
-	err := r.inner.OnBody(p, d)
-	if err == nil {
-		r.held += len(d)
-		if r.held > r.maxHeld {
-			r.maxHeld = r.held
-		}
-		r.evs = append(r.evs, "body "+lp.Hex(d))
-	}
-	return err
-}
-func (r *rec) OnTrailerHeader(p *nbhttp.Parser, k, v string) {
-	r.evs = append(r.evs, "trailer "+hx(k)+" "+hx(v))
-	r.inner.OnTrailerHeader(p, k, v)
-}
-func (r *rec) OnComplete(p *nbhttp.Parser) {
-	r.evs = append(r.evs, "complete")
-	r.held = 0
-	r.inner.OnComplete(p)
-}
-func (r *rec) Close(p *nbhttp.Parser, err error) { r.inner.Clean(p) }
-func (r *rec) Clean(p *nbhttp.Parser)            { r.inner.Clean(p) }
-
-func hdrString(h http.Header) string {
-	ks := make([]string, 0, len(h))
-	for k := range h {
-		ks = append(ks, k)
-	}
-	sort.Strings(ks)
-	var sb strings.Builder
-	for _, k := range ks {
-		sb.WriteString(hx(k) + ":" + hx(strings.Join(h[k], "\x00")) + ",")
-	}
-	return sb.String()
-}
-
-func errCode(err error) int {
-	switch {
-	case errors.Is(err, net.ErrClosed):
-		return 1
-	case errors.Is(err, nbhttp.ErrInvalidMethod):
-		return 2
-	case errors.Is(err, nbhttp.ErrInvalidRequestURI):
-		return 3
-	case errors.Is(err, nbhttp.ErrLFExpected):
-		return 4
-	case errors.Is(err, nbhttp.ErrCRExpected):
-		return 5
-	case errors.Is(err, nbhttp.ErrInvalidCharInHeader):
-		return 6
-	case errors.Is(err, nbhttp.ErrInvalidHTTPStatusCode):
-		return 7
-	case errors.Is(err, nbhttp.ErrInvalidHTTPStatus):
-		return 8
-	case errors.Is(err, nbhttp.ErrInvalidChunkSize):
-		return 9
-	case errors.Is(err, nbhttp.ErrTrailerExpected):
-		return 10
-	case errors.Is(err, nbhttp.ErrTooLong):
-		return 11
-	}
-	s := err.Error()
-	switch {
-	case strings.HasPrefix(s, "too many transfer encodings"), strings.HasPrefix(s, "unsupported transfer encoding"):
-		return 12
-	case strings.HasPrefix(s, "bad Content-Length"), strings.HasPrefix(s, "length less than zero"), strings.HasPrefix(s, "length greater"):
-		return 13
-	case strings.HasPrefix(s, "bad trailer key"):
-		return 14
-	case strings.HasPrefix(s, "invalid trailer"):
-		return 15
-	case strings.HasPrefix(s, "chunk size"):
-		return 9
-	case strings.Contains(s, "strconv.Atoi"):
-		return 18
-	case strings.HasPrefix(s, "malformed HTTP version"):
-		return 16
-	}
-	// url.ParseRequestURI errors
-	if strings.HasPrefix(s, "parse ") {
-		return 17
-	}
-	return 100
-}
 
 // ---------------------------------------------------------------- generator
 
@@ -364,75 +204,10 @@ func gen(g *lp.Gen) {
 	}
 }
 
-// ---------------------------------------------------------------- executor
-
-type sess struct {
-	client  bool
-	maxBody int
-	limit   int
-	p       *nbhttp.Parser
-	r       *rec
-	conn    *fakeConn
-	engine  *nbhttp.Engine
-}
-
-func newSess(client bool, maxBody, limit int) *sess {
-	engine := nbhttp.NewEngine(nbhttp.Config{ReadLimit: limit, MaxHTTPBodySize: maxBody})
-	if limit == 0 {
-		engine.ReadLimit = 0
-	}
-	s := &sess{client: client, maxBody: maxBody, limit: limit, engine: engine, conn: &fakeConn{}}
-	r := &rec{}
-	s.r = r
-	if client {
-		r.inner = nbhttp.NewClientProcessor(nil, func(res *http.Response, err error) {
-			if err != nil || res == nil {
-				r.msgs = append(r.msgs, "res-err")
-				return
-			}
-			var b []byte
-			if res.Body != nil {
-				b, _ = io.ReadAll(res.Body)
-			}
-			r.msgs = append(r.msgs, fmt.Sprintf("res{%s|%d|%s|%s|cl%d|%d:%x|%s}", hx(res.Proto), res.StatusCode, hx(res.Status),
-				hdrString(res.Header), res.ContentLength, len(b), lp.Fnv(b), hdrString(res.Trailer)))
-		})
-	} else {
-		r.inner = nbhttp.NewServerProcessor()
-		engine.Handler = http.HandlerFunc(func(w http.ResponseWriter, req *http.Request) {
-			var b []byte
-			if req.Body != nil {
-				b, _ = io.ReadAll(req.Body)
-			}
-			r.msgs = append(r.msgs, fmt.Sprintf("req{%s|%s|%s|%s|%s|cl%d|te%s|%d:%x|%s|close%v}", hx(req.Method), hx(req.RequestURI), hx(req.Proto),
-				hx(req.Host), hdrString(req.Header), req.ContentLength, hx(strings.Join(req.TransferEncoding, ",")), len(b), lp.Fnv(b), hdrString(req.Trailer), req.Close))
-		})
-	}
-	s.p = nbhttp.NewParser(s.conn, engine, r, client, nil)
-	return s
-}
-
-type result struct {
-	errc int
-	evs  string
-	msgs string
-}
-
-func (s *sess) feed(seg []byte) result {
-	s.r.evs = nil
-	s.r.msgs = nil
-	err := s.p.Parse(append([]byte{}, seg...))
-	res := result{evs: strings.Join(s.r.evs, ";"), msgs: strings.Join(s.r.msgs, ";")}
-	if err != nil {
-		res.errc = errCode(err)
-	}
-	return res
-}
-
 func exec(e *lp.Exec) {
-	lg := &capLogger{}
+	lg := &hx.CapLogger{}
 	logging.SetLogger(lg)
-	var s *sess
+	var s *hx.Sess
 	dead := false
 	var segs [][]byte
 	var allEvs, allMsgs []string
@@ -446,31 +221,31 @@ func exec(e *lp.Exec) {
 		}
 		// direct oracle C06: whole vs segmented, on the implementation alone
 		if len(segs) > 0 && !limitHit {
-			w := newSess(s.client, s.maxBody, s.limit)
+			w := hx.NewSess(s.Client, s.MaxBody, s.Limit)
 			var whole []byte
 			for _, sg := range segs {
 				whole = append(whole, sg...)
 			}
-			r := w.feed(whole)
+			r := w.Feed(whole)
 			segEvs := mergeBodies(strings.Join(allEvs, ";"))
-			if mergeBodies(r.evs) != segEvs || r.errc != finalErr || r.msgs != strings.Join(allMsgs, ";") {
-				e.Oracle("c06-whole-vs-segmented", "whole: err=%d [%s] msgs=%s ; segmented: err=%d [%s] msgs=%s", r.errc, mergeBodies(r.evs), r.msgs, finalErr, segEvs, strings.Join(allMsgs, ";"))
+			if mergeBodies(r.Evs) != segEvs || r.Errc != finalErr || r.Msgs != strings.Join(allMsgs, ";") {
+				e.Oracle("c06-whole-vs-segmented", "whole: err=%d [%s] msgs=%s ; segmented: err=%d [%s] msgs=%s", r.Errc, mergeBodies(r.Evs), r.Msgs, finalErr, segEvs, strings.Join(allMsgs, ";"))
 			}
-			if s.maxBody > 0 && w.r.maxHeld > s.maxBody {
-				e.Oracle("c08-body", "held=%d max=%d", w.r.maxHeld, s.maxBody)
+			if s.MaxBody > 0 && w.R.MaxHeld > s.MaxBody {
+				e.Oracle("c08-body", "held=%d max=%d", w.R.MaxHeld, s.MaxBody)
 			}
 		}
-		if s.maxBody > 0 && s.r.maxHeld > s.maxBody {
-			e.Oracle("c08-body", "held=%d max=%d", s.r.maxHeld, s.maxBody)
+		if s.MaxBody > 0 && s.R.MaxHeld > s.MaxBody {
+			e.Oracle("c08-body", "held=%d max=%d", s.R.MaxHeld, s.MaxBody)
 		}
 		// after an error the parser must stay silent if fed again (engine closes; parser level check)
 		// (the engine's driver closes the parser on error: model that glue, then feed again)
 		if finalErr != 0 {
-			s.p.CloseAndClean(errors.New("parse error"))
-			s.r.evs, s.r.msgs = nil, nil
-			err := s.p.Parse([]byte("GET / HTTP/1.1\r\n\r\n"))
-			if err == nil || len(s.r.evs) > 0 || len(s.r.msgs) > 0 {
-				e.Oracle("c08-after-error", "after err=%d and close: Parse returned %v events [%s]", finalErr, err, strings.Join(s.r.evs, ";"))
+			s.P.CloseAndClean(errors.New("parse error"))
+			s.R.Evs, s.R.Msgs = nil, nil
+			err := s.P.Parse([]byte("GET / HTTP/1.1\r\n\r\n"))
+			if err == nil || len(s.R.Evs) > 0 || len(s.R.Msgs) > 0 {
+				e.Oracle("c08-after-error", "after err=%d and close: Parse returned %v events [%s]", finalErr, err, strings.Join(s.R.Evs, ";"))
 			}
 		}
 		e.Key(key.String(), nontrivial)
@@ -488,11 +263,11 @@ func exec(e *lp.Exec) {
 			cl, _ := strconv.Atoi(f[1])
 			mb, _ := strconv.Atoi(f[2])
 			lim, _ := strconv.Atoi(f[3])
-			s = newSess(cl == 1, mb, lim)
+			s = hx.NewSess(cl == 1, mb, lim)
 			dead, segs, allEvs, allMsgs, finalErr, limitHit, nontrivial = false, nil, nil, nil, 0, false, false
 			key.Reset()
 			fmt.Fprintf(&key, "%d/%v/%v|", cl, mb > 0, lim > 0)
-			lg.panics = 0
+			lg.Panics = 0
 			e.P("> %s", line)
 			e.P("ok")
 			e.Count("cases", map[bool]string{true: "client", false: "server"}[cl == 1])
@@ -504,53 +279,53 @@ func exec(e *lp.Exec) {
 				continue
 			}
 			segs = append(segs, seg)
-			st0 := s.p.VerifState()
-			cache0 := s.p.VerifCacheLen()
+			st0 := s.P.VerifState()
+			cache0 := s.P.VerifCacheLen()
 			t0 := time.Now()
-			r := s.feed(seg)
+			r := s.Feed(seg)
 			if d := time.Since(t0); d > 2*time.Second {
 				e.Oracle("c08-slow", "Parse took %v on %d bytes", d, len(seg))
 			}
-			e.P("> D %s badurl=%s badproto=%s okproto=%s", f[1], strings.Join(s.r.badURL, ","), strings.Join(s.r.badProto, ","), strings.Join(s.r.okProto, ","))
-			s.r.okProto = nil
-			if lg.panics > 0 {
+			e.P("> D %s badurl=%s badproto=%s okproto=%s", f[1], strings.Join(s.R.BadURL, ","), strings.Join(s.R.BadProto, ","), strings.Join(s.R.OkProto, ","))
+			s.R.OkProto = nil
+			if lg.Panics > 0 {
 				e.Oracle("c08-panic", "Parse recovered from a panic")
-				lg.panics = 0
+				lg.Panics = 0
 			}
-			if r.evs != "" {
-				allEvs = append(allEvs, r.evs)
+			if r.Evs != "" {
+				allEvs = append(allEvs, r.Evs)
 			}
-			if r.msgs != "" {
-				allMsgs = append(allMsgs, r.msgs)
+			if r.Msgs != "" {
+				allMsgs = append(allMsgs, r.Msgs)
 			}
-			fmt.Fprintf(&key, "%d>%d,", st0, s.p.VerifState())
-			if cache0 > 0 || s.p.VerifCacheLen() > 0 {
+			fmt.Fprintf(&key, "%d>%d,", st0, s.P.VerifState())
+			if cache0 > 0 || s.P.VerifCacheLen() > 0 {
 				nontrivial = true
 			}
-			if r.errc != 0 {
+			if r.Errc != 0 {
 				dead = true
-				finalErr = r.errc
+				finalErr = r.Errc
 				nontrivial = true
-				if r.errc == 11 && cache0 > 0 && s.limit > 0 && cache0+len(seg) > s.limit {
+				if r.Errc == 11 && cache0 > 0 && s.Limit > 0 && cache0+len(seg) > s.Limit {
 					limitHit = true
 				}
-				fmt.Fprintf(&key, "E%d", r.errc)
-				e.Count("error_kinds", strconv.Itoa(r.errc))
-				e.P("R err=%d [%s] msgs=%s", r.errc, r.evs, r.msgs)
+				fmt.Fprintf(&key, "E%d", r.Errc)
+				e.Count("error_kinds", strconv.Itoa(r.Errc))
+				e.P("R err=%d [%s] msgs=%s", r.Errc, r.Evs, r.Msgs)
 				continue
 			}
-			cl := s.p.VerifCacheLen()
-			if s.limit > 0 {
-				bound := s.limit
+			cl := s.P.VerifCacheLen()
+			if s.Limit > 0 {
+				bound := s.Limit
 				if len(seg) > bound {
 					bound = len(seg)
 				}
 				if cl > bound {
-					e.Oracle("c08-retained", "cache=%d limit=%d data=%d", cl, s.limit, len(seg))
+					e.Oracle("c08-retained", "cache=%d limit=%d data=%d", cl, s.Limit, len(seg))
 				}
 			}
 			e.Count("parse_calls", "ok")
-			e.P("R ok cache=%d st=%d [%s] msgs=%s", cl, s.p.VerifState(), r.evs, r.msgs)
+			e.P("R ok cache=%d st=%d [%s] msgs=%s", cl, s.P.VerifState(), r.Evs, r.Msgs)
 		default:
 			e.P("> %s", line)
 			e.P("bad-op")
